@@ -435,26 +435,10 @@ func c06TreeFacts(t Tree, block int64) c06Facts {
 func c06Cause(mode string, o ISOOpts, facts c06Facts, detail string) string {
 	joliet := mode == "joliet"
 	switch {
-	case joliet && strings.Contains(detail, "could not find Joliet directory"):
-		return "joliet-directory-below-the-first-level"
-	case joliet:
-		// which directory is the complaint about?
-		if i := strings.Index(detail, "directory \""); i >= 0 {
-			rest := detail[i+len("directory \""):]
-			if j := strings.Index(rest, "\""); j >= 0 {
-				dir := strings.TrimPrefix(rest[:j], "/")
-				if facts.bigJolietDirs[dir] {
-					return "joliet-directory-larger-than-one-sector"
-				}
-				if facts.nonASCIIDirs[dir] {
-					return "joliet-directory-with-a-non-ascii-name"
-				}
-				if facts.longNameDirs[dir] {
-					return "joliet-directory-with-a-name-of-48-or-more-characters"
-				}
-			}
-		}
-		return "joliet"
+	case joliet && facts.maxDepth >= 1:
+		// the Joliet tree's records for subdirectories point at the primary tree's directory
+		// extents; it shows as failing lookups, truncated listings or foreign names
+		return "joliet-tree-with-a-subdirectory"
 	case o.RockRidge && !o.Deep && facts.maxDepth >= 8:
 		return "rockridge-directory-relocated-from-depth-over-8"
 	}
@@ -529,7 +513,12 @@ func c06Run(c core.Case, env *core.Env) core.Result {
 	matchTrees(want, got, "", exact, func(rule, detail string) {
 		nbad++
 		if nbad <= 3 {
-			fail("library-reader/"+rule, c06Cause(mode, p.Opts, facts, detail), "%s", detail)
+			if cause := c06Cause(mode, p.Opts, facts, detail); cause != mode {
+				// a structural cause predicate holds: one finding per cause, whatever entry shows it first
+				fail("library-reader-tree-differs", cause, "%s: %s", rule, detail)
+			} else {
+				fail("library-reader/"+rule, cause, "%s", detail)
+			}
 		}
 	})
 	res.Count("library.trees_compared", 1)
